@@ -135,6 +135,7 @@ func Run(r *core.Run) {
 		{"generated(n=3,t=1,ids=near-q)", scen.EcKey("near-q", 3, 1, r.Seed), 1},
 		{"generated(n=3,t=2,ids=large)", scen.EcKey("large", 3, 2, r.Seed), 2},
 		{"generated(n=3,t=1,ids=byte-boundary)", scen.EcKey("byte-boundary", 3, 1, r.Seed), 1},
+		{"generated(n=3,t=1,ids=above-q)", scen.EcKey("above-q", 3, 1, r.Seed), 1},
 		{"vendored(n=5,t=2)", fix.EcFixtures(), 2},
 	}
 	if r.Tier == "thorough" {
